@@ -11,12 +11,11 @@ MANIFEST = {
             'engine model (Mistral.Props.C02Sem, see C02): the engine model refines the declarative semantics Mistral.Sem '
             '(outcome = function of definition + action results), for every definition of the class (acyclic, SpecOK: joins of '
             'every kind, forks, several activations), every oracle and every plain history with pause / resume ANYWHERE: '
-            'sound, complete_at_quiescence_partial, pause_resume_same_outcome_partial (a quiescent history with pause / resume '
+            'sound, complete_at_quiescence, pause_resume_same_outcome (a quiescent history with pause / resume '
             'rounds has the same workflow state and set of task rows (name, state, next_tasks) as ANY quiescent history that '
-            'was never paused). At full strength the statement is FALSE of the code: pause_resume_same_outcome_full_fails '
-            '(resume re-queues start_task(first_run=False) for a task that is still IDLE; delivered after the task has FAILED '
-            'it runs the failed task again - witness proved in Lean, replayed on the real engine, known finding); the other '
-            'excluded class is the C01 finding (PausedClean). Tie: stream `sem` (real engine with pause / resume rounds at '
+            'was never paused), at full strength since the two defects that stood in the way are repaired (acd6a089; '
+            'repo_patches/20: a stale start_task(first_run=False) request for a task that has meanwhile completed is ignored - '
+            'regression stale_request_regression + corpus/C02). Tie: stream `sem` (real engine with pause / resume rounds at '
             'random points run to quiescence vs the semantics computed by the Lean driver). Programs with data flow: engine '
             'stream (paired paused/unpaused runs of generated programs, monitors read on the real traces).',
     'note': 'One event = one committed transaction (in-process atomicity); multi-process sub-transaction races are '
@@ -50,7 +49,7 @@ def correspond(ctx):
     # Mistral.Tree vs the real engine after every event + the monitors of the first sentence of C10
     par.run_parallel(ctx, 'harness.tree_stream', 'run_chunk',
                      [{'n_cases': ctx.n(8, 120), 'props': ['C10'], 'gen_kw': {'p_pause': 0.6}}] * 14)
-    # "same result after resume" against the declarative semantics (theorem pause_resume_same_outcome_partial)
+    # "same result after resume" against the declarative semantics (theorem pause_resume_same_outcome)
     par.run_parallel(ctx, 'harness.sem_stream', 'run_chunk', [{'n_programs': ctx.n(5, 150)}] * 14)
 
 
